@@ -225,6 +225,8 @@ type wcaseJSON struct {
 	RL   string `json:"rl"` // CLI spelling
 	WL   string `json:"wl"`
 	PP   bool   `json:"proxy_protocol,omitempty"` // the listener also reads a PROXY protocol header
+	// Multi: the listener is the second one built by MultiListener.Listen (how HTTPProxyConfig.ExtraListeners are built)
+	Multi bool `json:"multi,omitempty"`
 }
 
 // runWrapCase goes through SizeSuffix.Set and forwarder.Listener.Listen (net.go).
@@ -240,10 +242,25 @@ func runWrapCase(c wcaseJSON) string {
 	if c.PP {
 		l.ProxyProtocolConfig = forwarder.DefaultProxyProtocolConfig()
 	}
-	if err := l.Listen(); err != nil {
-		panic(err)
+	if c.Multi {
+		lc := l.ListenerConfig
+		ls, err := forwarder.MultiListener{ListenerConfigs: []forwarder.NamedListenerConfig{
+			{ListenerConfig: *forwarder.DefaultListenerConfig("127.0.0.1:0")}, {Name: "extra", ListenerConfig: lc}}}.Listen()
+		if err != nil {
+			panic(err)
+		}
+		defer func() {
+			for _, x := range ls {
+				x.Close()
+			}
+		}()
+		l = ls[1].(*forwarder.Listener)
+	} else {
+		if err := l.Listen(); err != nil {
+			panic(err)
+		}
+		defer l.Close()
 	}
-	defer l.Close()
 	wrapped, rx, tx := forwarder.VerifRateLimiters(l)
 	return fmt.Sprintf("{| wc_rl := %s; wc_wl := %s; wc_wrapped := %s; wc_rx := %s; wc_tx := %s |}", z(int64(rl)), z(int64(wl)), cbool(wrapped), optLim(rx), optLim(tx))
 }
@@ -504,9 +521,11 @@ func main() {
 		texts := []string{"off", "OFF", "0", "1", "1B", "1k", "1.5Ki", "1M", "4Mi", "300M", "1G"}
 		for _, a := range texts {
 			for _, b := range texts {
-				wcs = append(wcs, wcaseJSON{"wrap", a, b, false})
+				wcs = append(wcs, wcaseJSON{"wrap", a, b, false, false})
 				if (a == "1M" || a == "off" || a == "0") && (b == "4Mi" || b == "off" || b == "1k") {
-					wcs = append(wcs, wcaseJSON{"wrap", a, b, true})
+					wcs = append(wcs, wcaseJSON{"wrap", a, b, true, false})
+					wcs = append(wcs, wcaseJSON{"wrap", a, b, false, true})
+					wcs = append(wcs, wcaseJSON{"wrap", a, b, true, true})
 				}
 			}
 		}
